@@ -109,7 +109,18 @@ TZ(m) == LET i == CHOOSE i \in 1..Len(m) : m[i] # 0 /\ \A j \in 1..(i-1) : m[j] 
 QN2(a) == IF QIsZero(a) THEN QZero
           ELSE LET k1 == TZ(a.p.m) k2 == TZ(a.q) k == IF k1 < k2 THEN k1 ELSE k2
                IN IF k = 0 THEN a ELSE QMk(ZMk(a.p.neg, NShr(a.p.m, k)), NShr(a.q, k))
-QAddN(a, b) == QN2(QAdd(a, b))
+\* dyadic-aware sum / product: power-of-two denominators are aligned by shifting instead of multiplying
+IsP2N(q) == TZ(q) = NBitLen(q) - 1
+Lg2(q) == NBitLen(q) - 1
+QAddN(a, b) ==
+    IF a.q = b.q THEN QN2(QMk(ZAdd(a.p, b.p), a.q))
+    ELSE IF IsP2N(a.q) /\ IsP2N(b.q)
+         THEN LET ka == Lg2(a.q) kb == Lg2(b.q)
+              IN IF ka > kb THEN QN2(QMk(ZAdd(a.p, ZShl(b.p, ka - kb)), a.q)) ELSE QN2(QMk(ZAdd(ZShl(a.p, kb - ka), b.p), b.q))
+         ELSE QN2(QAdd(a, b))
+QMulN(a, b) == IF QIsZero(a) \/ QIsZero(b) THEN QZero
+               ELSE QN2(QMk(ZMul(a.p, b.p), IF IsP2N(a.q) /\ IsP2N(b.q) THEN NShl(a.q, Lg2(b.q)) ELSE NMul(a.q, b.q)))
+QSubN(a, b) == QAddN(a, QNeg(b))
 \* TLC keeps [x \in S |-> e] as an unevaluated closure and re-evaluates e at every application; concatenation
 \* yields an explicit tuple, so Tup makes a sequence "eager" (evaluated once)
 Tup(s) == s \o << >>
@@ -117,21 +128,28 @@ MatE(m) == Mat(m.c, m.r, Tup(m.e))
 RECURSIVE QSumNFrom(_, _, _)
 QSumNFrom(s, i, n) == IF i > n THEN QZero ELSE QAddN(QN2(s[i]), QSumNFrom(s, i + 1, n))
 QSumN(s0) == LET s == Tup(s0) IN QSumNFrom(s, 1, Len(s))
-MVecN(A, v0) == LET v == Tup(v0) IN Tup([r \in 1..A.r |-> QSumN([k \in 1..A.c |-> QMul(MAt(A, k, r), v[k])])])
+MVecN(A, v0) == LET v == Tup(v0) IN Tup([r \in 1..A.r |-> QSumN([k \in 1..A.c |-> QMulN(MAt(A, k, r), v[k])])])
 MMulN(A0, B0) == LET A == MatE(A0) B == MatE(B0)
-                 IN MatE(MFromFn(B.c, A.r, LAMBDA c, r : QSumN([k \in 1..A.c |-> QMul(MAt(A, k, r), MAt(B, c, k))])))
+                 IN MatE(MFromFn(B.c, A.r, LAMBDA c, r : QSumN([k \in 1..A.c |-> QMulN(MAt(A, k, r), MAt(B, c, k))])))
 MAbs(A) == Mat(A.c, A.r, Tup([k \in 1..Len(A.e) |-> QAbs(A.e[k])]))
 VAbs(v) == Tup([i \in 1..Len(v) |-> QAbs(v[i])])
 Det3N(m0) ==
     LET m == MatE(m0) a(c, r) == MAt(m, c, r) IN
-    QSumN(<< QMul(a(1,1), QAddN(QMul(a(2,2), a(3,3)), QNeg(QMul(a(3,2), a(2,3))))),
-             QNeg(QMul(a(2,1), QAddN(QMul(a(1,2), a(3,3)), QNeg(QMul(a(3,2), a(1,3)))))),
-             QMul(a(3,1), QAddN(QMul(a(1,2), a(2,3)), QNeg(QMul(a(2,2), a(1,3))))) >>)
+    QSumN(<< QMulN(a(1,1), QAddN(QMulN(a(2,2), a(3,3)), QNeg(QMulN(a(3,2), a(2,3))))),
+             QNeg(QMulN(a(2,1), QAddN(QMulN(a(1,2), a(3,3)), QNeg(QMulN(a(3,2), a(1,3)))))),
+             QMulN(a(3,1), QAddN(QMulN(a(1,2), a(2,3)), QNeg(QMulN(a(2,2), a(1,3))))) >>)
 \* adjugate and determinant of a 4x4 (m * Adj4N(m) = Det4N(m) * I)
 Adj4N(m0) == LET m == MatE(m0) IN
              MatE(MFromFn(4, 4, LAMBDA c, r : LET t == Det3N(MMinor(m, r, c)) IN IF (c + r) % 2 = 0 THEN t ELSE QNeg(t)))
 Det4N(m0) == LET m == MatE(m0) IN
-             QSumN([col \in 1..4 |-> LET t == QMul(MAt(m, col, 1), Det3N(MMinor(m, col, 1))) IN IF col % 2 = 1 THEN t ELSE QNeg(t)])
+             QSumN([col \in 1..4 |-> LET t == QMulN(MAt(m, col, 1), Det3N(MMinor(m, col, 1))) IN IF col % 2 = 1 THEN t ELSE QNeg(t)])
+
+MatN(m) == Mat(m.c, m.r, Tup([k \in 1..Len(m.e) |-> QN2(m.e[k])]))
+\* a rational with a power-of-two denominator as a dyadic; an upper / lower bound of |d| with a mantissa of <= 16 bits
+DOfQ(a) == DMk(a.p.neg, a.p.m, -Lg2(a.q))                                 \* requires IsP2N(a.q)
+IsDyadicQ(a) == IsP2N(a.q)
+UpD(d) == LET n == NBitLen(d.m) IN IF n <= 15 THEN DAbs(d) ELSE DMk(FALSE, NAdd(NShr(d.m, n - 15), <<1>>), d.e + n - 15)
+LowD(d) == LET n == NBitLen(d.m) IN IF n <= 15 THEN DAbs(d) ELSE DMk(FALSE, NShr(d.m, n - 15), d.e + n - 15)
 
 \* ---------------------------------------------------------------- project / unProject / pickMatrix
 Hom(v) == << v[1], v[2], v[3], QOne >>
@@ -144,6 +162,13 @@ ProjectQ(obj, model, proj, vp, zo) ==                                   \* requi
     IN << QAdd(QMul(QAdd(QMul(nd[1], QHalf), QHalf), vp[3]), vp[1]),
           QAdd(QMul(QAdd(QMul(nd[2], QHalf), QHalf), vp[4]), vp[2]),
           IF zo THEN nd[3] ELSE QAdd(QMul(nd[3], QHalf), QHalf) >>
+\* the same without divisions: numerators << Nx, Ny, Nz >> and denominators << Dxy, Dz >> (window = N / D)
+ProjectHom(obj, model, proj, vp, zo) ==
+    LET c == ClipOf(obj, model, proj) w == c[4] w2 == QMulN(QTwo, w) IN
+    << QAddN(QMulN(c[1], vp[3]), QMulN(w, QAddN(vp[3], QMulN(QTwo, vp[1])))),
+       QAddN(QMulN(c[2], vp[4]), QMulN(w, QAddN(vp[4], QMulN(QTwo, vp[2])))),
+       IF zo THEN c[3] ELSE QAddN(c[3], w),
+       w2, IF zo THEN w ELSE w2 >>
 \* normalised device coordinates of a window point
 NdcOfWin(win, vp, zo) ==
     << QSub(QMul(QDiv(QSub(win[1], vp[1]), vp[3]), QTwo), QOne),
@@ -152,6 +177,13 @@ NdcOfWin(win, vp, zo) ==
 \* the homogeneous pre-image, up to the common factor det(proj * model); adj = Adj4N(proj * model)
 UnProjectHomA(adj, win, vp, zo) == MVecN(adj, NdcOfWin(win, vp, zo))
 UnProjectHom(win, model, proj, vp, zo) == UnProjectHomA(Adj4N(MMulN(proj, model)), win, vp, zo)
+\* the same with the NDC point scaled by width * height (no division): DeHom is unchanged by the common factor
+NdcOfWinS(win, vp, zo) ==
+    << QMulN(QSubN(QMulN(QTwo, QSubN(win[1], vp[1])), vp[3]), vp[4]),
+       QMulN(QSubN(QMulN(QTwo, QSubN(win[2], vp[2])), vp[4]), vp[3]),
+       QMulN(IF zo THEN win[3] ELSE QSubN(QMulN(QTwo, win[3]), QOne), QMulN(vp[3], vp[4])),
+       QMulN(vp[3], vp[4]) >>
+UnProjectHomS(adj, win, vp, zo) == MVecN(adj, NdcOfWinS(win, vp, zo))
 DeHom(o) == << QDiv(o[1], o[4]), QDiv(o[2], o[4]), QDiv(o[3], o[4]) >>
 UnProjectQ(win, model, proj, vp, zo) == DeHom(UnProjectHom(win, model, proj, vp, zo))   \* requires det # 0 and a finite pre-image
 \* gluPickMatrix: restricts the view to the window rectangle of size delta centred at center
